@@ -30,7 +30,7 @@ def run(ctx) -> None:
     rep.rule("C04.R1", "superstep calls are bounded by a single for-range loop over the max_iterations parameter", floor=4)
     rep.rule("C04.R2", "exhaustion of the bound raises ExecutionError(InfiniteLoopError(bound), state) while nodes are still ready", floor=2)
     rep.rule("C04.R3", "staleness comparator: equal->fresh, greater->stale; versions only ever grow by one; accumulator rule consulted", floor=4)
-    rep.rule("C04.R4", "an END decision is never cleared as stale", floor=1)
+    rep.rule("C04.R4", "an END decision is never cleared as stale; a loop body is re-activated by whichever of its controlling gates routes to it", floor=2)
     rep.rule("C04.R6", "gate options (default_open ...) reach the gate node: factories and constructors use every option they accept", floor=8)
     rep.rule("C04.R5", "a ready gate holds its targets back even when it is itself deferred behind the producer of its signal", floor=1)
 
@@ -240,6 +240,9 @@ def _r5(ctx) -> None:
 
     check_block_before_deferral(ctx, "C04.R5")
     check_node_options_used(ctx, "C04.R6")
+    from .c03 import check_any_gate_activates
+
+    check_any_gate_activates(ctx, "C04.R4")
 
 
 def _deletes_decisions(n) -> bool:
